@@ -489,11 +489,11 @@ def check_file_cases(ctx, cases):
 
 def file_batch(ctx):
     cases = file_cases(ctx.rng, ctx.tier == "thorough")
-    if ctx.tier != "thorough":
-        # the model ladder (large driver lines) on the unchanged copies and on every 3rd changed pair in the quick tier;
-        # the property (a real change must fail) is asserted on every pair
-        for i, c in enumerate(cases):
-            c["ladder"] = c["tag"] == "file-unchanged" or i % 3 == 0
+    # the model ladder (large driver lines) on the unchanged copies and on every 3rd (thorough: 2nd) changed pair; the
+    # property (a real change must fail) is asserted on every pair
+    step = 2 if ctx.tier == "thorough" else 3
+    for i, c in enumerate(cases):
+        c["ladder"] = c["tag"] == "file-unchanged" or i % step == 0
     CHF = 400
     for i in range(0, len(cases), CHF):
         check_file_cases(ctx, cases[i:i + CHF])
